@@ -47,6 +47,11 @@ CHECKS = {
             "convert_to: for ALL values, unit scales and real dimension vectors the result n satisfies n*unit == value exactly when the dimensions are equivalent; composition and identity for all values; convert_to_si and evaluate_expression for all values over the finite set of catalogue dimensions / bounded trees; prefix table and Celsius helpers exactly (reals) and bit-precisely (doubles, |x| <= 1e9, thorough tier).",
             "Trusted: z3 (QF_NRA, QF_FP), sympy dimsys_SI, vlib/lift.py stubs. Float rounding is modelled only in the Celsius kernel.",
             "3.7"),
+    "C12": ("S", "other",
+            "real operators executed on generic undefined fields; SymPy derivatives mapped to jet variables; identities and agreement with rotated Cartesian operators decided by z3 (QF_NRA with sin/cos pairs)",
+            "For ALL smooth fields (free 1st/2nd-order jets) and ALL points of the domain z3 decides curl grad = 0, div curl = 0, zero-padding, and equality of the cylindrical/spherical gradient, divergence and curl with the Cartesian ones in the local orthonormal basis.",
+            "Trusted: z3 nlsat, SymPy's diff/chain rule, the textbook transformation and rotation matrices in checks/c12.py. Singular points (r = 0, sin(phi) = 0) and phi = pi/2 (code divides by tan) are outside.",
+            "3.12"),
 }
 
 NOT_APPLICABLE = {
